@@ -44,7 +44,7 @@ impl<R> Reader<R> {
     }
 //@end
 
-//@extract reader::Reader::decoder | src/reader/mod.rs :: impl<R> Reader<R> :: fn decoder | serves=C12
+//@extract reader::Reader::decoder | src/reader/mod.rs :: impl<R> Reader<R> :: fn decoder | serves=C12,C17
  fn decoder(&self) -> (r: Decoder)
         ensures r == self.state.decoder_spec()
  {
@@ -52,7 +52,7 @@ impl<R> Reader<R> {
     }
 //@end
 
-//@extract reader::Reader::read_event_impl | src/reader/mod.rs :: impl<R> Reader<R> :: fn read_event_impl | serves=C01,C02,C03,C04,C05,C08,C12,C16,C18 expand=read_event_impl n11=1,2
+//@extract reader::Reader::read_event_impl | src/reader/mod.rs :: impl<R> Reader<R> :: fn read_event_impl | serves=C01,C02,C03,C04,C05,C08,C12,C16,C17,C18 expand=read_event_impl n11=1,2
     /// Read text into the given buffer, and return an event that borrows from
     /// either that buffer or from the input itself, based on the type of the
     /// reader.
@@ -83,10 +83,19 @@ impl<R> Reader<R> {
             // C03: after Eof (and after any error that ended the document) every further call returns Eof
             old(self).state.state is Done ==> (r matches Ok(Event::Eof)) && final(self).state == old(self).state,
             stack_effect(old(self).state, final(self).state, r),
+//@if encoding
+            // C17: the encoding in force after the call: the sniff of the first bytes (only in the very first call,
+            // only over an implicit default), then the XML declaration if this call returned one (only over an implicit
+            // or sniffed choice). An encoding fixed by from_str (Explicit) or by a declaration is never changed.
+            enc_post(old(self).state, old(self).reader.bom_enc(), final(self).state, r),
+//@endif
     {
         let ghost pre = self.state;
         let ghost rem = self.reader.remaining();
         let ghost f0 = self.reader.faults();
+//@if encoding
+        let ghost benc0 = self.reader.bom_enc();
+//@endif
         let ghost mut gcur = self.state;
         let ghost mut grem = self.reader.remaining();
         let ghost brem = self.reader.after_bom();
@@ -110,6 +119,10 @@ impl<R> Reader<R> {
                 !(pre.state is Done) ==> self.state.offset + self.reader.remaining().len() <= pre.offset + rem.len(),
                 forall|post: ReaderState, rem2: Seq<u8>, r: core::result::Result<Event<'i>, Error>, fault: bool|
                     #[trigger] event_post(self.state, self.reader.remaining(), self.reader.after_bom(), post, rem2, r, fault) ==> event_post(pre, rem, brem, post, rem2, r, fault),
+//@if encoding
+                enc_inv(pre, benc0, self.state),
+                self.state.state is Init ==> self.reader.bom_enc() == benc0,
+//@endif
             ensures
                 self.state.wf(), self.state.config == pre.config,
                 self.reader.faults() >= f0,
@@ -150,6 +163,10 @@ impl<R> Reader<R> {
                                 assert(io_fail(gcur, grem, post, r, fault)) by { reveal(io_fail); }
                             } else {
                                 let m = choose|m: ReaderState| #[trigger] arm_post(self.state, self.reader.remaining(), self.reader.after_bom(), m, rem2, r, fault) && post == finish(m, r);
+//@if encoding
+                                assert(bom_refines(gcur.encoding, self.state.encoding));
+                                assert(self.state == (ReaderState { state: ParseState::InsideText, encoding: self.state.encoding, ..gcur }));
+//@endif
                                 assert(arm_post(gcur, grem, gbrem, m, rem2, r, fault)) by { reveal(arm_post); }
                             }
                             assert(event_post(gcur, grem, gbrem, post, rem2, r, fault));
@@ -262,6 +279,11 @@ impl<R> Reader<R> {
                 assert(self.state.state is InsideMarkup ==> self.state.offset >= gcur.offset + 1 && (gcur.state is InsideText)) by {
                     reveal(arm_post); reveal(text_post); reveal(io_fail); reveal(markup_post);
                 }
+//@if encoding
+                assert(self.state.encoding == decl_refines(gcur.encoding, event)) by { reveal(markup_post); }
+                assert(enc_inv(pre, benc0, gcur) && !(gcur.state is Init));
+                assert(!(self.state.state is Init)) by { reveal(markup_post); }
+//@endif
             } break; };
         };
         let ghost m = self.state;
@@ -280,6 +302,11 @@ impl<R> Reader<R> {
             assert(self.reader.remaining() == rem2 && fault == (self.reader.faults() > f0));
             assert(arm_post(gcur, grem, gbrem, m, rem2, event, fault) && self.state == finish(m, event));
             assert(event_post(gcur, grem, gbrem, self.state, rem2, event, fault)) by { reveal(event_post); }
+//@if encoding
+            assert(enc_post(pre, benc0, self.state, event)) by {
+                if pre.state is Init { assert(bom_step(pre.encoding, benc0, gcur.encoding)); }
+            }
+//@endif
         }
         event
     }
@@ -293,7 +320,7 @@ impl<R> Reader<R> {
 //@patch stack_effect(old(self).state, final(self).state, r), ==> stack_effect(old(self).state, final(self).state, r),\n            r matches Ok(Event::Text(e)) ==> e.content@.len() > 0, // C16: an emptied text event is dropped
 //@end
 
-//@extract reader::Reader::read_until_close | src/reader/mod.rs :: impl<R> Reader<R> :: fn read_until_close | serves=C01,C02,C03,C04,C05,C08,C12,C16,C18 expand=read_until_close
+//@extract reader::Reader::read_until_close | src/reader/mod.rs :: impl<R> Reader<R> :: fn read_until_close | serves=C01,C02,C03,C04,C05,C08,C12,C16,C17,C18 expand=read_until_close
     /// Private function to read until `>` is found. This function expects that
     /// it was called just after encounter a `<` symbol.
     fn read_until_close<'i, B>(&mut self, buf: B) -> (r: Result<Event<'i>, Error>)
@@ -400,7 +427,7 @@ pub type Result<T> = core::result::Result<T, Error>;
 pub type Span = core::ops::Range<u64>;
 
 impl<'a> Reader<&'a [u8]> {
-//@extract slice_reader::Reader::read_event | src/reader/slice_reader.rs :: impl<'a> Reader<&'a [u8]> :: fn read_event | serves=C01,C02,C03,C04,C05,C08,C12,C16,C18
+//@extract slice_reader::Reader::read_event | src/reader/slice_reader.rs :: impl<'a> Reader<&'a [u8]> :: fn read_event | serves=C01,C02,C03,C04,C05,C08,C12,C16,C17,C18
  fn read_event(&mut self) -> (r: Result<Event<'a>>)
         requires
             old(self).inv(),
@@ -414,6 +441,9 @@ impl<'a> Reader<&'a [u8]> {
             continues(r) ==> measure(final(self).state, final(self).reader.remaining()) < measure(old(self).state, old(self).reader.remaining()),
             final(self).bufpos() >= old(self).bufpos(),
             final(self).state.config == old(self).state.config,
+//@if encoding
+            enc_post(old(self).state, old(self).reader.bom_enc(), final(self).state, r),
+//@endif
  {
         self.read_event_impl(())
     }
@@ -434,7 +464,7 @@ impl<'a> Reader<&'a [u8]> {
             // the decoding of the first `n` bytes that were left, n = length of the span reported by read_to_end
             r matches Ok(t) ==> exists|n: int| 0 <= n <= old(self).reader.remaining().len()
                 && n <= final(self).bufpos() - old(self).bufpos()
-                && #[trigger] spec_decode(old(self).state.decoder_spec(), old(self).reader.remaining().subrange(0, n)) == Ok::<Cow<'a, str>, EncodingError>(t),
+                && #[trigger] spec_decode(final(self).state.decoder_spec(), old(self).reader.remaining().subrange(0, n)) == Ok::<Cow<'a, str>, EncodingError>(t),
  {
         // self.reader will be changed, so store original reference
         let buffer = self.reader;
@@ -600,7 +630,7 @@ pub type Result<T> = core::result::Result<T, Error>;
 pub type Span = core::ops::Range<u64>;
 
 impl<R: BufRead> Reader<R> {
-//@extract buffered_reader::Reader::read_event_into | src/reader/buffered_reader.rs :: impl<R: BufRead> Reader<R> :: fn read_event_into | serves=C01,C02,C03,C04,C05,C08,C12,C16,C18
+//@extract buffered_reader::Reader::read_event_into | src/reader/buffered_reader.rs :: impl<R: BufRead> Reader<R> :: fn read_event_into | serves=C01,C02,C03,C04,C05,C08,C12,C16,C17,C18
  fn read_event_into<'b>(&mut self, buf: &'b mut Vec<u8>) -> (r: Result<Event<'b>>)
         requires
             old(self).inv(),
@@ -614,6 +644,9 @@ impl<R: BufRead> Reader<R> {
             continues(r) ==> measure(final(self).state, final(self).reader.remaining()) < measure(old(self).state, old(self).reader.remaining()),
             final(self).bufpos() >= old(self).bufpos(),
             final(self).state.config == old(self).state.config,
+//@if encoding
+            enc_post(old(self).state, old(self).reader.bom_enc(), final(self).state, r),
+//@endif
  {
         self.read_event_impl(buf)
     }
